@@ -813,23 +813,34 @@ func (r *reducer) canonS(p *string, tokens bool, canon ...string) {
 		cur := strings.Join(ts, "")
 		*p = cur
 		if v := strings.Join(renameIdents(ts, 0, names), ""); v != cur && (goOK(r.goSort, v) || !goOK(r.goSort, cur)) {
+			if r.try(func() { *p = v }, func() { *p = cur }) {
+				cur = v
+			}
+		}
+		// whitespace inside the text: runs -> one space, or one newline if the run has one
+		if v := reWSRun.ReplaceAllStringFunc(cur, wsClass); v != cur && (goOK(r.goSort, v) || !goOK(r.goSort, cur)) {
 			r.try(func() { *p = v }, func() { *p = cur })
 		}
 		return
 	}
-	// shorten rune-wise
-	rs := []rune(o)
-	if len(rs) > 200 {
+	// shorten unit-wise: a character reference is one unit, everything else a rune
+	us := reCharRef.FindAllString(o, -1)
+	if len(us) > 200 {
 		return
 	}
-	rs = ddmin(rs, func(q []rune) bool {
-		*p = string(q)
+	us = ddmin(us, func(q []string) bool {
+		*p = strings.Join(q, "")
 		ok := r.test(r.f.String())
 		*p = o
 		return ok
 	})
-	*p = string(rs)
+	*p = strings.Join(us, "")
 }
+
+var reWSRun = regexp.MustCompile(`[ \t\r\n]+`)
+
+// reCharRef splits text into character references and single runes.
+var reCharRef = regexp.MustCompile(`&#?[0-9A-Za-z]+;|(?s).`)
 
 // canonName tries the given names in order (no shortening: names stay names).
 func (r *reducer) canonName(p *string, names ...string) {
